@@ -87,7 +87,8 @@ pub fn judge_bytes(bytes: &[u8], cfg: Option<&BuildCfg>) -> Result<Vec<(String, 
             let got = fl.digests.get(i).map(|d| lossy(d)).unwrap_or_default();
             // directories and links may go without a digest; a digest that IS recorded must be the
             // digest of what the archive holds for that entry, whatever its type
-            if mode & 0o170000 != 0o100000 && got.is_empty() {
+            let ty = mode & 0o170000;
+            if (ty == 0o040000 || ty == 0o120000) && got.is_empty() {
                 continue;
             }
             let want = sha256_hex(&e.data);
@@ -96,8 +97,8 @@ pub fn judge_bytes(bytes: &[u8], cfg: Option<&BuildCfg>) -> Result<Vec<(String, 
             }
         }
     }
-    // file digests against the configuration
-    if let Some(cfg) = cfg {
+    // file digests against the configuration (not when the sources were rewritten under the builder)
+    if let Some(cfg) = cfg.filter(|c| !c.disturb_sources) {
         let fl = decode_files(bytes, &p.hdr)?;
         for f in &cfg.files {
             // a path given more than once: the builder keeps one of the contents (judged above)
@@ -204,6 +205,14 @@ fn ladder_cfg(rng: &mut Rng, k: usize) -> BuildCfg {
         d.size = 0;
         cfg.files.push(d);
     }
+    // a mode given as permission bits only (no file-type bits): still a file with content and a digest
+    {
+        let mut f = cfg.files[1].clone();
+        f.dest = format!("/opt/ladder/{k}-permission-only-mode");
+        f.mode = Some([0o644, 0o755, 0o600][k % 3]);
+        f.size = 11;
+        cfg.files.push(f);
+    }
     // the same path given twice with different content, in three spellings
     if k % 3 == 0 {
         let spell = ["/opt/ladder/twice.dat", "./opt/ladder/twice.dat", "/opt//ladder/twice.dat"];
@@ -216,6 +225,8 @@ fn ladder_cfg(rng: &mut Rng, k: usize) -> BuildCfg {
         }
     }
     cfg.compression = ladder()[k].clone();
+    // every fourth ladder package: the source files change between with_file() and build()
+    cfg.disturb_sources = k % 4 == 1;
     cfg
 }
 
@@ -287,6 +298,8 @@ fn run(ctx: &Ctx, rep: &Report) {
                 }
             }
             Err(CorpusErr::Panic(site, msg)) => rep.violation(format!("panic:{site}"), format!("emitting operation panics: {msg}"), w("build"), 0),
+            // a builder that reads its sources late may refuse files that changed or vanished
+            Err(CorpusErr::Err(_, _)) if cfg.disturb_sources => *local.entry("disturbed_sources.build_error(allowed)".into()).or_insert(0) += 1,
             Err(CorpusErr::Err(op, msg)) => rep.violation(format!("emit-error:{op}:{}", crate::util::par::normalize_msg(&msg)), format!("{op} fails on a valid configuration: {msg}"), w("build"), 0),
         }
         rep.counts(&local);
